@@ -57,6 +57,20 @@ fn main() {
                 println!("m3 {:?}", l);
                 v.push("precedence"); v.push("span_labels_follow_the_rule"); v.push("no_duplicate_names");
             }
+            // 5. a descendant sees the fields its ancestors had when it was created: a later record() on the ancestor does not reach it
+            let parent = span!(Level::INFO, "p5", early = "e", later = tracing::field::Empty);
+            let _p = parent.enter();
+            let child = span!(Level::INFO, "c5", own = "o");
+            let _c = child.enter();
+            parent.record("later", "too_late");
+            parent.record("early", "changed");
+            metrics::counter!("m5").increment(1);
+            let l = labels_of(&snap, "m5");
+            let get = |k: &str| l.iter().find(|x| x.0 == k).map(|x| x.1.clone());
+            if get("early").as_deref() != Some("e") || get("later").is_some() || get("own").as_deref() != Some("o") {
+                println!("m5 {:?}", l);
+                v.push("span_labels_follow_the_rule"); v.push("precedence");
+            }
         });
         // 4. filter
         let rec = DebuggingRecorder::new();
